@@ -175,6 +175,47 @@ const DOCTYPES: &[&str] = &[
 
 const COMMENTS: &[&str] = &["<!---->", "<!--x-->", "<!-- -- -->", "<!-->", "<!--->", "<!--a--!>", "<!--<!--x-->", "<!x>", "<?pi?>", "</ >", "<!--\0-->"];
 
+/// A customizable-select block as the standard describes it: select, optional button,
+/// selectedcontent with arbitrary (possibly unclosed) content, then options, some selected.
+fn gen_select_block(s: &mut Src, out: &mut String) {
+    const INNER: &[&str] = &[
+        "x", "y ", "<b>", "</b>", "<i>z</i>", "<table>", "<div>", "<p>", "<span>q</span>", "<svg><circle/></svg>", "<!--c-->", "<template>t</template>",
+        "<a>", " ", "<td>", "<tr>", "</div>", "<img>", "<selectedcontent>", "<option>", "<hr>", "<input>",
+    ];
+    out.push_str(*s.pick(&["<select>", "<select>", "<select multiple>", "<SELECT>", "<div><select>", "<b><select>", "<table><td><select>"]));
+    let button = s.chance(100);
+    if button {
+        out.push_str("<button>");
+    }
+    if s.chance(230) {
+        out.push_str("<selectedcontent>");
+        for _ in 0..s.below(4) {
+            out.push_str(*s.pick(INNER));
+        }
+        if s.chance(150) {
+            out.push_str("</selectedcontent>");
+        }
+    }
+    if button && s.chance(200) {
+        out.push_str("</button>");
+    }
+    for _ in 0..s.range(1, 3) {
+        out.push_str(*s.pick(&["<option selected>", "<option selected>", "<option>", "<option selected=selected value=v>", "<optgroup><option selected>"]));
+        for _ in 0..s.below(3) {
+            out.push_str(*s.pick(INNER));
+        }
+        if s.chance(200) {
+            out.push_str("</option>");
+        }
+        for _ in 0..s.below(2) {
+            out.push_str(*s.pick(INNER));
+        }
+    }
+    if s.chance(128) {
+        out.push_str("</select>");
+    }
+}
+
 /// One HTML input: 0..max_tokens tokens with well-nested preference and a
 /// misnesting rate, then optional character noise.
 pub fn gen_html(s: &mut Src, max_tokens: usize) -> String {
@@ -187,7 +228,8 @@ pub fn gen_html(s: &mut Src, max_tokens: usize) -> String {
         out.push_str(*s.pick(DOCTYPES));
     }
     for _ in 0..n {
-        match s.weighted(&[40, 22, 16, 4, 2, 2, 3, 3]) {
+        match s.weighted(&[40, 22, 16, 4, 2, 2, 3, 3, 1]) {
+            8 => gen_select_block(s, &mut out),
             0 => {
                 // start tag
                 let name = if s.chance(40) && !open.is_empty() {
@@ -265,6 +307,16 @@ pub fn gen_html(s: &mut Src, max_tokens: usize) -> String {
                     "<b class=x><b class=x><b class=x><b class=x><p>z", "<font><font><font><font><p>", "<b><i><u><s><em><strong><tt><big><small><p>x</b>",
                     "<a><a><a><a><a>", "<nobr><b><nobr><i><nobr>", "<table><a><b><i><u><td>x</a>", "<b><b><b><b><b><b><b><b><b><b><div>q</b></b></b></b>",
                     "<option selected>", "</select>", "</head><script>", "</head><title>", "</head><meta charset=x>", "</head><style>",
+                    // foreign elements that carry names the HTML rules give a meaning, with HTML content below them
+                    "<svg><tr><desc>", "<svg><td><foreignObject>", "<math><template><mi>", "<svg><template><title>",
+                    "<math><tbody><annotation-xml encoding=text/html>", "<svg><select><desc>", "<svg><caption><foreignObject>",
+                    "<math><table><mtext>", "<svg><html><desc>", "<svg><body><foreignObject>", "<math><li><mi>", "<svg><p><title>",
+                    "<svg><button><desc>", "<math><form><mo>", "<svg><a><foreignObject>", "<svg><frameset><desc>", "<svg><head><title>",
+                    // the customizable-select structure of the standard
+                    "<select><button><selectedcontent>", "<select><selectedcontent>", "<selectedcontent>x", "</selectedcontent>",
+                    "<option selected>y</option>", "<option selected><b>z</b></option>", "<option selected>", "</button>",
+                    "<select multiple><selectedcontent>", "<option>n</option>",
+                    "<table></table>", "<template></template>", "<table><tr></table>", "<td>", "<tr>", "<tbody>", "<caption>", "<col>",
                     "<head></head><link>", "</head><template>", "</head><noframes>", "</head><base>", "</option>", "</table>", "</td>", "</tr>", "</caption>", "</tbody>",
                 ]));
             },
